@@ -193,4 +193,10 @@ def serve (E : BlockCipher) (q : Req) (c : Conf) : Ans :=
     | .error .mic => base 200 "MICFailed"
     | .error .other => base 200 "Other"
 
+/-- `handleHomeNSReq`: (code, result, sender, receiver, txid, message type, HNetID); the callback returned `netID` or ErrDevEUINotFound -/
+def serveHomeNS (netID : Option Bytes) (sender receiver : String) (txid : Nat) : Nat × String × String × String × Nat × String × Bytes :=
+  match netID with
+  | some n => (200, "Success", receiver, sender, txid, "HomeNSAns", n)
+  | none => (400, "UnknownDevEUI", receiver, sender, txid, "HomeNSAns", [0, 0, 0])
+
 end LW.JS
